@@ -20,16 +20,14 @@ def shimMix (seed pos : Nat) : Nat :=
   let x := (x * 0xBF58476D1CE4E5B9) % m64
   x ^^^ (x >>> 32)
 
-/-- desired size of the read issued when `p` plain bytes have been delivered.  `hdr`: the
-descriptor goes through `ReadFactory`, which reads `kMagicSize` bytes first and hands them
-out separately (`UncompressedWithHeader`). -/
-def mkOrc (hdr : Bool) (mode seed span : Nat) (p : Nat) : Nat :=
-  if hdr && p < 6 then 6 - p
-  else match mode with
-    | 0 => m64
-    | 1 => 1
-    | 2 => span
-    | _ => 1 + shimMix seed p % span
+/-- desired size of the read issued when `p` plain bytes have been delivered (the 6-byte header that
+`ReadFactory` reads ahead is part of the model: `St.hdrLeft`). -/
+def mkOrc (mode seed span : Nat) (p : Nat) : Nat :=
+  match mode with
+  | 0 => m64
+  | 1 => 1
+  | 2 => span
+  | _ => 1 + shimMix seed p % span
 
 /-! ### protocol -/
 def fnv (bs : List Byte) : Nat := bs.foldl (fun h b => ((h ^^^ b) * 1099511628211) % m64) 1469598103934665603
@@ -78,6 +76,7 @@ structure DSt where
   bytes : List Byte := []
   fixH : Bool := true
   fixI : Bool := true
+  fixF : Bool := true
   specOnly : Bool := false
   rest : List Byte := []
   env : Option Env := none
@@ -97,25 +96,31 @@ def step (s : DSt) (line : String) : DSt × String :=
     | none => (s, "bad-op")
   | ["data"] => ({ s with bytes := [], env := none, st := none, specOff := 0 }, "ok")
   | ["variant", v] =>
+    -- "new" = the repaired code, "old" = today's code, "spec" = do not run the window model; otherwise three
+    -- letters H I F, upper case = that repair is in (e.g. "HiF": everything but the peek/get repair)
     match v with
-    | "new" => ({ s with fixH := true, fixI := true, specOnly := false }, "ok")
-    | "old" => ({ s with fixH := false, fixI := false, specOnly := false }, "ok")
-    | "H" => ({ s with fixH := true, fixI := false, specOnly := false }, "ok")
-    | "I" => ({ s with fixH := false, fixI := true, specOnly := false }, "ok")
+    | "new" => ({ s with fixH := true, fixI := true, fixF := true, specOnly := false }, "ok")
+    | "old" => ({ s with fixH := false, fixI := false, fixF := false, specOnly := false }, "ok")
     | "spec" => ({ s with specOnly := true }, "ok")
-    | _ => (s, "bad-op")
-  | ["open", backend, mb, mode, seed, span] =>
+    | _ =>
+      match v.toList with
+      | [h, i, f] => ({ s with fixH := h == 'H', fixI := i == 'I', fixF := f == 'F', specOnly := false }, "ok")
+      | _ => (s, "bad-op")
+  | "open" :: backend :: mb :: mode :: seed :: span :: more =>
     match mb.toNat?, mode.toNat?, seed.toNat?, span.toNat? with
     | some mb, some mode, some seed, some span =>
-      let be : Option (Backend × Bool) := match backend with
-        | "file" => some (.file, false)
-        | "pipe" => some (.pipe, true)
-        | "lazy" => some (.lazy, false)
+      -- optional: file offset from which every mmap fails (-1 / absent: never)
+      let mmFrom : Option Nat := match more with | [t] => t.toNat? | _ => none
+      let be : Option Backend := match backend with
+        | "file" => some .file
+        | "pipe" => some .pipe
+        | "lazy" => some .lazy
         | _ => none
       match be with
-      | some (be, hdr) =>
-        let env : Env := { cfg := { page := 4096, fixH := s.fixH, fixI := s.fixI }, bytes := s.bytes,
-                           orc := mkOrc hdr mode seed span }
+      | some be =>
+        let env : Env := { cfg := { page := 4096, fixH := s.fixH, fixI := s.fixI, fixF := s.fixF }, bytes := s.bytes,
+                           orc := mkOrc mode seed span,
+                           mmapFail := fun mo => match mmFrom with | some t => decide (t ≤ mo) | none => false }
         if s.specOnly then ({ s with env := some env, st := none, specOff := 0, rest := s.bytes }, "ok @- | ok @0")
         else
         let st := init env mb be
